@@ -536,6 +536,28 @@ def h5(prog: Program, chk: Check) -> None:
             f"idioms", n >= 8, "" if n >= 8 else "the class shrank below what was confirmed by hand")
 
 
+def h6(prog: Program, chk: Check) -> None:
+    chk.rule("H6", "the target derivative enters the backward pass as the C-ordered vector of the "
+             "matrix the caller passed: the gradient module flattens / reshapes nothing in memory "
+             "order ('K', 'A') or Fortran order - a target given as a transposed view "
+             "(`target_state.T`, the documented usage) must not be read transposed", floor=1)
+    from rules.c20 import layout_orders
+    hits = layout_orders(prog, modules={"gradient"})
+    for (u, c, order) in hits:
+        chk.saw(u)
+        chk.add("H6", u, f"{norm(c)[:60]}", False,
+                f"order={order!r}: a non-contiguous target enters the backward pass as the vector "
+                f"of the transposed matrix; the gradient then belongs to another objective", c)
+    n = sum(1 for u in prog.units_in("gradient") for c in walk_local(u.node)
+            if isinstance(c, ast.Call) and (dotted(c.func) or "").split(".")[-1]
+            in ("ravel", "flatten", "reshape"))
+    chk.add("H6", prog.module("gradient"), f"{n} flatten / reshape calls in the gradient module, "
+            f"{len(hits)} with a layout-dependent order", True,
+            "all in logical (C) order" if not hits else "reported above")
+    if n < 2:
+        raise AnalysisError("H6: the gradient module no longer reshapes the states / targets")
+
+
 def h4(prog: Program, chk: Check) -> None:
     chk.rule("H4", "the propagator derivative handed to the adjoint pass comes from a "
              "differentiation operator (numdifftools Jacobian / Derivative / Gradient) applied to "
@@ -664,3 +686,4 @@ def run(prog: Program, chk: Check) -> None:
     chk.call(h2_h3, prog, chk)
     chk.call(h4, prog, chk)
     chk.call(h5, prog, chk)
+    chk.call(h6, prog, chk)
